@@ -10,7 +10,7 @@ sh -c "$DEMO" > /tmp/mut/$N.demo_patched.log 2>&1; RC1=$?
 git apply -R seed/patch.diff
 sh -c "$DEMO" > /tmp/mut/$N.demo_clean.log 2>&1; RC2=$?
 git apply seed/patch.diff
-cargo nextest run --workspace --no-fail-fast --tool-config-file pb:/w/lib/nextest.toml --profile pb --test-threads 8 --offline --target-dir $W/target > /tmp/mut/$N.suite.log 2>&1
+cargo nextest run --workspace --no-fail-fast --tool-config-file pb:/w/lib/nextest.toml --profile pb --test-threads 8 --offline --target-dir $W/target < /dev/null > /tmp/mut/$N.suite.log 2>&1
 SUM=$(grep -E "Summary" /tmp/mut/$N.suite.log | tail -1)
 FAILS=$(grep -E "^\s+FAIL" /tmp/mut/$N.suite.log | sed 's/.*) //' | sort -u | tr '\n' ';')
 mkdir -p $OUT
